@@ -434,9 +434,10 @@ class Runner:
         self.eng = hleng.HL(ctx)
         self.evals = 0
 
-    def impl(self, opss):
+    def impl(self, opss, timeout=5.0):
+        """answers are short: a case that keeps printing (a corrupted range of millions of hosts) or stays silent is cut off early"""
         self.evals += len(opss)
-        return self.eng.run_impl([render_ops(o) for o in opss])
+        return self.eng.ctx.run_lines([self.eng.impl], [render_ops(o) for o in opss], timeout_per_case=timeout, max_line=2 << 20)
 
     def model(self, opss, impl_lines):
         cases = []
@@ -461,25 +462,32 @@ def canon_impl(line):
 
 
 def first_bad_prefix(run1, ops):
-    """smallest prefix length on which the implementation faults (binary search is wrong for state-dependent faults: linear)"""
-    for n in range(1, len(ops) + 1):
-        if not run1(ops[:n]).startswith("OK"):
-            return n
-    return len(ops)
+    """smallest prefix length on which the implementation faults (a fault ends the process, so it is monotone in the prefix)"""
+    lo, hi = 1, len(ops)
+    while lo < hi:
+        mid = (lo + hi) // 2
+        if run1(ops[:mid]).startswith("OK"):
+            lo = mid + 1
+        else:
+            hi = mid
+    return lo
 
 
-def shrink(ops, failing):
-    """greedy delta debugging on the op list; `failing(ops)` says whether the candidate still shows the problem"""
+def shrink(ops, failing, budget=60):
+    """greedy delta debugging on the op list; `failing(ops)` says whether the candidate still shows the problem;
+    at most `budget` candidates are tried (each is a run of the implementation)"""
     cur = list(ops)
     chunk = max(1, len(cur) // 2)
-    while chunk >= 1:
+    while chunk >= 1 and budget > 0:
         i, changed = 0, False
-        while i < len(cur):
+        while i < len(cur) and budget > 0:
             cand = cur[:i] + cur[i + chunk:]
-            if cand and valid(cand) and failing(cand):
-                cur, changed = cand, True
-            else:
-                i += chunk
+            if cand and valid(cand):
+                budget -= 1
+                if failing(cand):
+                    cur, changed = cand, True
+                    continue
+            i += chunk
         if not changed:
             chunk //= 2
     return cur
@@ -519,12 +527,12 @@ def ops_from_json(j):
 def examine(ctx, rn, ops, impl_line, model_line, stats, report=True):
     """classify one history; returns 'ok' | 'finding' | 'violation'"""
     def impl1(o):
-        return rn.impl([o])[0]
+        return rn.impl([o], timeout=2.5)[0]
 
     if not impl_line.startswith("OK"):
         # memory fault / abort / hang in the implementation
         n = first_bad_prefix(impl1, ops)
-        small = shrink(ops[:n], lambda o: not impl1(o).startswith("OK"))
+        small = shrink(ops[:n], lambda o: not impl1(o).startswith("OK"), budget=12 if impl_line.startswith("HANG") else 40)
         why = impl1(small)
         ctx.violation("input", case={"ops": ops_to_json(small), "text": render_ops(small)}, expected="every call returns",
                       observed=why[:300], engine="hl",
@@ -613,9 +621,9 @@ def directed():
     # pop under iterators
     out.append(("pop-then-push-under-iterator", [P(b"a1,b2", [b"a1", b"b2"]), I, N(0), N(0), ("pop", None, None), P(b"c3", [b"c3"]), N(0), N(0)]))
     out.append(("pop-inside-range-then-push", [P(b"a[1-3]", names(b"a", 1, 3)), I, N(0), N(0), N(0), ("pop", None, None), P(b"a3", [b"a3"]), N(0), N(0)]))
-    # sixteen ranges: the slot after the last one lies outside the array
-    sixteen = [b"h%c" % (97 + i) for i in range(15)]
-    out.append(("insert-at-array-size", [P(b",".join(sixteen) + b",a[1-5]", sixteen + names(b"a", 1, 5)), I] + [N(0)] * 21 +
+    # fifteen ranges in an array of sixteen slots: an exhausted iterator stands at index 15; a split makes it 16 = the array size
+    fourteen = [b"h%c" % (97 + i) for i in range(14)]
+    out.append(("insert-at-array-size", [P(b",".join(fourteen) + b",a[1-5]", fourteen + names(b"a", 1, 5)), I] + [N(0)] * 20 +
                 [("delete_host", hexs(b"a3"), b"a3"), N(0)]))
     # shift / pop of whole ranges with several iterators
     out.append(("shift-ranges", [abc, I, I, N(0), N(0), N(1), ("shift", None, None), ("shift", None, None), N(0), N(1), ("shift", None, None), N(0), N(1), N(1)]))
@@ -697,20 +705,31 @@ def run(ctx):
         stats["iter_remove"] += kinds.count("iter_remove")
         stats["delete_under_iterator"] += sum(1 for i, kd in enumerate(kinds) if kd in ("delete_host", "delete_nth", "delete", "shift", "pop") and "iter_new" in kinds[:i])
     ctx.log("%d histories (%d corpus/directed), %d ops" % (len(hist), ncorpus, stats["ops"]))
-    impl = rn.impl(hist)
-    model, mcases = rn.model(hist, impl)
     bad, samples, outcomes = 0, [], {"ok": 0, "finding": 0, "violation": 0}
-    for ops, tag, il, ml in zip(hist, tags, impl, model):
-        quick_ok = il.startswith("OK") and canon_impl(il) == ml and judge(ops, split_result(il)) is None
-        res = "ok" if quick_ok else examine(ctx, rn, ops, il, ml, stats)
-        outcomes[res] += 1
-        if res == "violation":
-            bad += 1
-            ctx.log("problem in %s history: %s" % (tag, ctx.violations[-1]["detail"][:300]))
-            if bad >= 6:
-                break
-        if len(samples) < 3 and tag == "gen" and 8 <= len(ops) <= 14 and "iter_remove" in [o[0] for o in ops]:
-            samples.append({"history": describe(ops)[:400], "impl": canon_impl(il)[:300]})
+    examined = 0
+    # in slices, so that a badly broken tree (every case a crash or a hang) is reported after the first slice
+    cuts = [0, min(len(hist), ncorpus + 60)] + list(range(ncorpus + 60 + 500, len(hist), 500)) + [len(hist)]
+    for a, b in zip(cuts, cuts[1:]):
+        if a >= b:
+            continue
+        sl_h, sl_t = hist[a:b], tags[a:b]
+        impl = rn.impl(sl_h)
+        model, mcases = rn.model(sl_h, impl)
+        for ops, tag, il, ml in zip(sl_h, sl_t, impl, model):
+            examined += 1
+            quick_ok = il.startswith("OK") and canon_impl(il) == ml and judge(ops, split_result(il)) is None
+            res = "ok" if quick_ok else examine(ctx, rn, ops, il, ml, stats)
+            outcomes[res] += 1
+            if res == "violation":
+                bad += 1
+                ctx.log("problem in %s history: %s" % (tag, ctx.violations[-1]["detail"][:300]))
+                if bad >= 6:
+                    break
+            if len(samples) < 3 and tag == "gen" and 8 <= len(ops) <= 14 and "iter_remove" in [o[0] for o in ops]:
+                samples.append({"history": describe(ops)[:400], "impl": canon_impl(il)[:300]})
+        if bad >= 6:
+            ctx.log("stopping after %d of %d histories" % (examined, len(hist)))
+            break
     # beyond the domain: the known ways in which the code fails the property
     for name, ops in beyond_domain():
         il = rn.impl([ops])[0]
@@ -729,7 +748,8 @@ def run(ctx):
                 "expressions and a small-prefix-pool generator (mixed widths, overlaps, digit-ending prefixes, singles).  Each history runs on "
                 "hostlist.c (ASan+UBSan) and on the extracted model, is compared answer by answer, and is judged by the plain-list reference; "
                 "distinct = distinct histories",
-        "samples": samples, "input_distribution": stats, "corpus_cases": ncorpus, "outcomes": outcomes, "disagreements": bad})
+        "samples": samples, "input_distribution": stats, "corpus_cases": ncorpus, "outcomes": outcomes, "histories_examined": examined,
+        "disagreements": bad})
     return ctx.finish(cov, [
         "qsort inside hostlist_uniq is an oracle: the array as the real qsort left it is handed to the model, which checks that it is a rearrangement of its own array",
         "libc snprintf/strtoul/strcmp modelled; ASan+UBSan detect the memory faults the model calls Fault",
